@@ -1284,6 +1284,19 @@ impl Core {
 			},
 		)?;
 
+		// Recovery may have replaced the segment file (repair renames a new file over it) or
+		// removed it: the writer opened before recovery would keep appending to the old,
+		// unlinked file. Reopen it on what is on disk now.
+		{
+			let mut wal_guard = inner.wal.write();
+			wal_guard.close()?;
+			*wal_guard = Wal::open_with_min_log_number(
+				&wal_path,
+				min_wal_number,
+				wal::Options::default(),
+			)?;
+		}
+
 		// Set recovered memtable as active (if any)
 		if let Some(memtable) = recovered_memtable {
 			let mut active_memtable = inner.active_memtable.write()?;
@@ -1659,19 +1672,9 @@ impl Tree {
 			*immutable_memtables = ImmutableMemtables::default();
 		}
 
-		// Reopen the WAL from the restored directory
+		// The WAL of the restored directory (the writer is reopened below, after recovery)
 		let wal_path = self.core.inner.opts.path.join("wal");
 		let manifest_log_number = self.core.inner.level_manifest.read()?.get_log_number();
-
-		{
-			let mut wal_guard = self.core.inner.wal.write();
-			let new_wal = Wal::open_with_min_log_number(
-				&wal_path,
-				manifest_log_number,
-				wal::Options::default(),
-			)?;
-			*wal_guard = new_wal;
-		}
 
 		// Replay any WAL entries that were restored
 		let (wal_seq_num_opt, recovered_memtable) = Core::replay_wal_with_repair(
@@ -1696,6 +1699,18 @@ impl Tree {
 				Ok(())
 			},
 		)?;
+
+		// Reopen the WAL writer on the restored directory - after recovery, which may have
+		// replaced or removed the segment file by repairing it
+		{
+			let mut wal_guard = self.core.inner.wal.write();
+			let new_wal = Wal::open_with_min_log_number(
+				&wal_path,
+				manifest_log_number,
+				wal::Options::default(),
+			)?;
+			*wal_guard = new_wal;
+		}
 
 		// Set recovered memtable as active (if any)
 		if let Some(memtable) = recovered_memtable {
